@@ -3,7 +3,12 @@
 EXTENDS Deb822, Deb822Tokens, GenLib
 CONSTANTS MaxToks, Toks, ByteAlphabet, MaxBytes, Mode, Kind
 
-TokDocs == {Doc(ts, crlf, final) : ts \in TokSeqs(MaxToks, Toks), crlf \in BOOLEAN, final \in BOOLEAN}
+\* documents of more than 15 bytes (the length of the armor marker the reader looks for) that begin with a comment,
+\* with a run of blank lines, or with a field name that sorts below '-'
+Leads == {<<HASH>> \o [i \in 1..16 |-> 99] \o <<LF>>, [i \in 1..16 |-> LF], <<43, 120, COLON, SP>> \o [i \in 1..14 |-> 49] \o <<LF>>,
+          <<HASH, LF, LF, HASH, HASH, LF, CR, LF>> \o [i \in 1..8 |-> LF], <<33, 120, COLON, SP, 49, LF>> \o [i \in 1..10 |-> LF]}
+LeadDocs == {pre \o Doc(ts, FALSE, TRUE) : pre \in Leads, ts \in TokSeqs(2, {1, 2, 4, 9})}
+TokDocs == {Doc(ts, crlf, final) : ts \in TokSeqs(MaxToks, Toks), crlf \in BOOLEAN, final \in BOOLEAN} \cup LeadDocs
 ByteDocs == SeqsUpTo(ByteAlphabet, MaxBytes)
 
 \* values = line sequences over {"", "a", " b"} with or without a trailing newline
@@ -29,6 +34,7 @@ FaultVecs == {[k |-> "write_fault", paras |-> <<P2(<<111, 110, 101>>, <<97>>), P
 \* written (even empty), "Comment" only when it has text
 EncVals == {[Name |-> n, Comment |-> c] : n \in {<<>>, <<111, 110, 101>>}, c \in {<<>>, <<99>>}}
 EncVecs == {[k |-> "enc_structs", values |-> vs] : vs \in UNION {[1..n -> EncVals] : n \in 1..3}}
+           \cup {[k |-> "enc_structs", values |-> vs, dup |-> TRUE] : vs \in UNION {[1..n -> EncVals] : n \in 1..2}}
 ASSUME Emit(CASE Mode = "tokdocs"  -> SetToSeq({[k |-> Kind, doc |-> d] : d \in TokDocs})
               [] Mode = "bytedocs" -> SetToSeq({[k |-> Kind, doc |-> d] : d \in ByteDocs})
               [] Mode = "paras"    -> SetToSeq(ParaVecs) \o SetToSeq(FaultVecs) \o SetToSeq(EncVecs))
